@@ -71,7 +71,7 @@ class FakeNpLinalg:
 
     @staticmethod
     def lstsq(a, b, rcond=None):
-        return lstsq(a, b)
+        return lstsq(a, b, cond=rcond)
 
     @staticmethod
     def pinv(a, *x, **k):
@@ -100,9 +100,16 @@ class _Ufunc:
     def __init__(self, name, op):
         self.name, self.op = name, op
 
-    def __call__(self, a, b, dtype=None, **k):
+    def __call__(self, a, b, dtype=None, out=None, **k):
         if k:
             raise AnalysisError(f'np.{self.name} with keyword arguments {sorted(k)} has no model')
+        if out is not None:
+            # the result is written into the buffer of `out` (a store into the whole array) and `out` is returned
+            if not isinstance(out, Arr):
+                raise AnalysisError(f'np.{self.name}(out=...) with an output that is not an array')
+            r = self(a, b, dtype=dtype)
+            out[...] = r
+            return out
         if dtype is not None:
             r = self(a, b)
             return r.astype(dtype) if isinstance(r, Arr) else r
@@ -168,6 +175,19 @@ class FakeNumpy:
         r = Arr(shape, None, A.dtype_of(dtype), None, {'const': 'zeros', 'alloc': 'zeros'}, 'zeros')
         ctx().event('alloc', array=r, what='zeros')
         return r
+
+    @staticmethod
+    def empty(shape, dtype=None, **k):
+        # uninitialised: no content at all until it is stored into (an entry read before that is of unknown provenance for the content rules)
+        shape = _shape_arg(shape)
+        r = Arr(shape, None, A.dtype_of(dtype), None, {'alloc': 'empty'}, 'empty')
+        ctx().event('alloc', array=r, what='empty')
+        return r
+
+    @staticmethod
+    def empty_like(a, dtype=None, **k):
+        a = as_arr(a)
+        return FakeNumpy.empty(list(a.shape), dtype=dtype if dtype is not None else {'real': float, 'complex': complex, 'int': int, 'bool': bool}[a.dt])
 
     @staticmethod
     def ones(shape, dtype=None, **k):
@@ -944,7 +964,7 @@ def lstsq(a, b, cond=None, lapack_driver=None, **k):
     if not sz_eq(a.shape[0], b.shape[0]):
         raise value_error(f'lstsq: incompatible dimensions {a.shape} and {b.shape}')
     x = Arr([a.shape[1]] + list(b.shape[1:]), [dual_legs(a.legs[1])] + list(b.legs[1:]), A.join_dtype(a.dt, b.dt), None, {'lstsq': (a, b)}, 'lstsq')
-    A.CTX.event('lstsq', matrix=a, rhs=b, result=x)
+    A.CTX.event('lstsq', matrix=a, rhs=b, result=x, cond=cond)
     return (x, scalar('real', 'resid'), scalar('int', 'rank'), Arr([sz_min(A.CTX.atoms, a.shape[0], a.shape[1])], None, 'real', None, {}, 'sv'))
 
 
